@@ -149,7 +149,33 @@ func TestVerifC03Address(t *testing.T) {
 		t.Fatal(err)
 	}
 	defer e4.Close()
+	// ... and addresses aliasing the few addresses of that second, small epoch (a handful of stored addresses in one bucket:
+	// each alias costs ~2^24 / n tries, and with several of them every stored address gets aliased sooner or later - also the
+	// one whose record is the very first of the linked log, at offset 0)
+	stored4 := map[string]bool{}
+	for _, tt := range l4.built.TxBySig {
+		for _, k := range tt.Accounts {
+			stored4[string(k[:])] = true
+		}
+	}
+	want4, budget4 := 8, 45_000_000
+	if !vt.Quick() {
+		want4, budget4 = 30, 250_000_000
+	}
+	aliases4 := rpcAliases(filepath.Join(l4.gsfaDir, "pubkey-to-offset-and-size.index"), stored4, func(i int) []byte { b := make([]byte, 32); rng.Read(b); return b }, budget4, want4)
+	var keys4 []solana.PublicKey
+	for _, k := range aliases4 {
+		var pk solana.PublicKey
+		copy(pk[:], k)
+		keys4 = append(keys4, pk)
+	}
 	for pass := 0; pass < 2; pass++ {
+		if pass == 1 {
+			for _, pk := range keys4 {
+				keys = append(keys, pk)
+				isAlias = append(isAlias, true)
+			}
+		}
 		loadedNow := []uint64{3}
 		if pass == 1 {
 			multi.ReplaceOrAddEpoch(4, e4)
@@ -182,7 +208,7 @@ func TestVerifC03Address(t *testing.T) {
 			out.Emit(o)
 		}
 	}
-	t.Logf("aliasing addresses found: %d", len(aliases))
+	t.Logf("aliasing addresses found: %d + %d", len(aliases), len(aliases4))
 }
 
 func TestVerifC07Handler(t *testing.T) {
